@@ -15,7 +15,7 @@ META = {
     "bounds": {"quick": "scalar state (d=1) and d=2 (Euclidean norm abstracted by an uninterpreted function with the norm axioms); "
                         "the vector field is an UNINTERPRETED function (every vector field, incl. f(u0)=0), every real u0 incl. 0, "
                         "t0, atol>0, rtol>0; contraction rates 1,3,12; first- and second-order fields for dt0",
-               "thorough": "additionally dict-pytree states"},
+               "thorough": "further contraction rates and second-order fields at d=2"},
     "assumptions": ["reals (magnitudes such as 1e300 are floating-point range questions and are outside)",
                     "x**c, products and quotients of two symbolic terms are uninterpreted functions with sign/monotonicity "
                     "axioms instantiated on the occurring terms (sound abstraction)",
@@ -28,7 +28,7 @@ META = {
 def cases(tier):
     out = ["dt0/o1/d1", "dt0/o2/d1", "dt0/o1/d2", "adaptive/r1/d1", "adaptive/r3/d1", "adaptive/r12/d1", "adaptive/r3/d2"]
     if tier == "thorough":
-        out += ["dt0/o1/d2tree", "adaptive/r2/d2"]
+        out += ["adaptive/r2/d2", "adaptive/r12/d2", "dt0/o2/d2"]
     return out
 
 
